@@ -200,8 +200,64 @@ def chunks(lst, n):
         yield lst[i:i + n]
 
 
+def run_rebinding(unit):
+    """a proxy for a PYRONAME / PYROMETA uri travels, is then bound through the name server (the library replaces its uri by the resolved
+    one) and travels again: every time the receiver must get the uri the proxy holds at that moment"""
+    import copy
+    import gc
+    from vf.syncworld import SyncWorld
+    from vf import targets
+    from Pyro5 import client, core, nameserver, serializers
+    st = Stats()
+    gc.disable()
+    w = SyncWorld(SERIALIZER="serpent")
+    saved = core.locate_ns
+    try:
+        nsd = w.daemon()
+        ns = nameserver.NameServer()
+        nsuri = nsd.register(ns, core.NAMESERVER_NAME)
+        ns.register(core.NAMESERVER_NAME, nsuri)
+        d = w.daemon()
+        target = d.register(targets.Echo(), "echo")
+        ns.register("svc", target, metadata={"tag1"})
+        core.locate_ns = lambda *a, **k: client.Proxy(nsuri)
+        for text in ("PYRONAME:svc", "PYROMETA:tag1", str(target)):
+            for sname in sorted(serializers.serializers) + ["copy"]:
+                st.executions += 1
+                ser = serializers.serializers.get(sname)
+                send = (lambda p: ser.loads(ser.dumps(p))) if ser else copy.copy
+                p = client.Proxy(text)
+                stages = []
+                try:
+                    stages.append(("fresh", send(p)._pyroUri, p._pyroUri))
+                    p._pyroBind()
+                    stages.append(("bound", send(p)._pyroUri, p._pyroUri))
+                    p._pyroRelease()
+                    stages.append(("released", send(p)._pyroUri, p._pyroUri))
+                except Exception as x:
+                    st.violations.append({"fingerprint": "C19|proxy-state-raises|rebinding|%s" % type(x).__name__, "what": "%s / %s: %r" % (text, sname, x), "replay": {"rebinding": True}})
+                    continue
+                finally:
+                    p._pyroRelease()
+                st.points += 3
+                for stage, got, held in stages:
+                    if state_of(got) != state_of(held):
+                        fp = "C19|proxy-state-changes-uri|after-%s|%s" % (stage, text.split(":")[0])
+                        if fp not in [v["fingerprint"] for v in st.violations]:
+                            st.violations.append({"fingerprint": fp, "what": "a %s proxy for %s holds %s but arrives (%s) holding %s" % (stage, text, held, sname, got), "replay": {"rebinding": True}})
+                st.outcomes["rebinding:%s" % text.split(":")[0]] = 1
+        st.states.add("rebinding")
+    finally:
+        core.locate_ns = saved
+        w.close()
+        gc.enable()
+    return st
+
+
 def run(ctx):
     total = Stats()
+    for st in ctx.pmap(run_rebinding, [0]):
+        total.merge(st)
     g = grammar_strings()
     e = edit_strings()
     units = [(c, True) for c in chunks(g, 450)] + [(c, True) for c in chunks(e, 450)]
@@ -249,5 +305,8 @@ def run(ctx):
 
 
 def replay(ctx, payload):
+    if payload.get("replay", {}).get("rebinding"):
+        st = run_rebinding(0)
+        return {"violations": [v for v in st.violations if v["fingerprint"] == payload["fingerprint"]]}
     st = task(([payload["replay"]["string"]], False))
     return {"violations": st.violations}
